@@ -7,6 +7,14 @@ HERE = os.path.dirname(os.path.dirname(os.path.abspath(__file__)))
 
 # id: (category, engine, technique, text, note, design_ref)
 CHECKS = {
+    "C03": (
+        "model_checking",
+        "sim",
+        "exhaustive enumeration of segmentation points and close offsets of a PDU stream fed to the real acceptor under the simulated transport",
+        "A raw peer sends association request, pipelined P-DATA (one PDV, a message split over two PDUs, two PDVs in one PDU), a 5 kB association request and a release request to the real provider/association threads; the stream is cut at every byte position (all pairs in the thorough tier), with and without inter-segment delay, uniformly in 1..64-byte and 512..4096-byte segments, and the connection is closed at every byte offset; received-PDU notifications, decoded bytes, handler calls, responses and outcome must be independent of the segmentation and a close inside a PDU must surface as Evt17.",
+        "Simulated transport preserves segment boundaries (one recv returns at most one segment); default schedule.",
+        "3/C03",
+    ),
     "C04": (
         "model_checking",
         "tlc",
@@ -30,6 +38,14 @@ CHECKS = {
         "Two real application entities (requestor + acceptor server) with all pairs of user scripts (release, abort, echo, idle, release/abort from handlers and from a second thread): every schedule with at most D deviations from the deterministic default scheduler is executed to completion on the real code; monitors check one terminal flag and one terminal event per side, agreement of both sides, all threads finished, sockets closed, provider idle and the time bound.",
         "Same trusted base as C05; D=1 quick, D=2 thorough; prompt virtual time.",
         "3/C06",
+    ),
+    "C08": (
+        "fault_enumeration",
+        "sim",
+        "enumeration of every byte offset at which a raw peer falls silent (plus dribbling and a never-completing connect) against the real code in virtual time",
+        "For both roles the peer's valid byte stream is delivered up to every byte offset of every phase and then nothing more arrives while the connection stays open; prompt virtual time makes elapsed time meaningful, so the check requires every API call and every provider/association thread to finish within the relevant timeout plus margin and the socket to be closed; a thread blocked without deadline is reported with its call site.",
+        "Accepted sockets carry no timeout (CPython semantics); default schedule; quick tier every 5th offset plus all offsets within 7 bytes of PDU boundaries, thorough every offset.",
+        "3/C08",
     ),
     "C26": (
         "model_checking",
